@@ -20,6 +20,7 @@ VERIF = os.path.dirname(os.path.dirname(os.path.abspath(__file__)))
 REPO = os.environ.get("VERIF_REPO", "/repo")
 NPROC = int(os.environ.get("VERIF_WORKERS", "0")) or min(16, os.cpu_count() or 4)
 OUT = os.environ.get("VERIF_OUT", VERIF)      # where evidence/ and replays/ are written (self-tests redirect it)
+BACKEND = os.environ.get("VERIF_BACKEND", "ecdsa")   # "ecdsa" (what this sandbox has) | "stub" (fake pysecp256k1)
 
 
 class HarnessError(Exception):
@@ -36,7 +37,15 @@ def ensure_env():
     if REPO not in sys.path:
         sys.path.insert(0, REPO)
     sys.dont_write_bytecode = True
+    if BACKEND == "stub":
+        from . import fake_secp
+        fake_secp.install()           # must happen before the library is imported: it picks its back end at import
     import btc_hd_wallet  # noqa
+    import btc_hd_wallet.keys as _keys
+    primary = not hasattr(_keys, "CURVE_ORDER")
+    if primary != (BACKEND == "stub"):
+        raise HarnessError("back end mismatch: VERIF_BACKEND=%s but the library %s the pysecp256k1 path"
+                           % (BACKEND, "took" if primary else "did not take"))
     got = os.path.realpath(os.path.dirname(os.path.dirname(btc_hd_wallet.__file__)))
     if got != os.path.realpath(REPO):
         raise HarnessError("btc_hd_wallet imported from %s, expected %s" % (got, REPO))
@@ -390,6 +399,10 @@ def write_evidence(prop, doc):
 def replay_file(sim, prop, path):
     with open(path) as f:
         doc = json.load(f)
+    want_backend = doc.get("backend", "ecdsa")
+    if want_backend != BACKEND:
+        os.environ["VERIF_BACKEND"] = want_backend
+        os.execv(sys.executable, [sys.executable] + sys.argv)
     plan = doc["trace"] if "trace" in doc else doc
     st, res = fork_call(lambda: sim.run(prop, plan), timeout=600)
     if st != "ok":
@@ -534,7 +547,7 @@ def run_check(sim, prop, tier, verif_seed, n_runs=None, seconds=None, level="exp
             m = {"trace": r["trace"], "violations": r["violations"], "spent": 0, "digest": r["digest"]}
             mv = [x for x in r["violations"] if x["class"] == vclass]
             ent = match_known(prop, mv[0], known)
-        path = os.path.join(OUT, "replays", "%s-%d.json" % (prop, r["seed"]))
+        path = os.path.join(OUT, "replays", "%s-%s%d.json" % (prop, "" if BACKEND == "ecdsa" else BACKEND + "-", r["seed"]))
         if ent is None:
             k = 0
             while os.path.exists(path) and k < 50:
@@ -542,7 +555,7 @@ def run_check(sim, prop, tier, verif_seed, n_runs=None, seconds=None, level="exp
                 path = os.path.join(OUT, "replays", "%s-%d-%d.json" % (prop, r["seed"], k))
         else:
             path = os.path.join(OUT, "replays", "known-%s-%s.json" % (prop, ent["id"]))
-        doc = {"property": prop, "seed": r["seed"], "verif_seed": verif_seed, "run_index": r["idx"],
+        doc = {"property": prop, "seed": r["seed"], "verif_seed": verif_seed, "run_index": r["idx"], "backend": BACKEND,
                "violation_class": vclass, "violation": mv[0], "digest": m["digest"],
                "minimiser_candidates": m["spent"], "trace": m["trace"]}
         with open(path, "w") as f:
@@ -552,7 +565,7 @@ def run_check(sim, prop, tier, verif_seed, n_runs=None, seconds=None, level="exp
         import subprocess
         rp = subprocess.run([sys.executable, os.path.join(VERIF, "check"), prop, "--replay", path],
                             capture_output=True, text=True, timeout=900,
-                            env=dict(os.environ, VERIF_HASHSEED="0", PYTHONHASHSEED="0"))
+                            env=dict(os.environ, VERIF_HASHSEED="0", PYTHONHASHSEED="0", VERIF_BACKEND=BACKEND))
         want_rc = 0 if ent is not None else 1
         if rp.returncode != want_rc:
             harness_errors.append("replay of %s in a fresh process returned %d (wanted %d): %s"
@@ -603,17 +616,67 @@ def run_check(sim, prop, tier, verif_seed, n_runs=None, seconds=None, level="exp
         xcov, xerr = {}, ["extra_checks crashed: " + traceback.format_exc()]
     cov.update(xcov)
     harness_errors += xerr
+    # secondary back end (stub of pysecp256k1): a separate interpreter, because the library picks its back end
+    # at import time; its violations are real verdicts about the primary code path and are printed as such
+    sub_viol = 0
+    if BACKEND == "ecdsa" and not os.environ.get("VERIF_NO_SECONDARY"):
+        for be, n_sub, secs_sub in sim.secondary_backends(prop, tier):
+            import subprocess
+            import tempfile
+            import shutil
+            tmpo = tempfile.mkdtemp(prefix="verif-sub-")
+            try:
+                cmd = [sys.executable, os.path.join(VERIF, "check"), prop, "--tier", tier, "--no-hashseed-selftest"]
+                cmd += ["--runs", str(n_sub)] if n_sub else ["--seconds", str(secs_sub)]
+                envs = dict(os.environ, VERIF_BACKEND=be, VERIF_OUT=tmpo, VERIF_SEED=str(verif_seed))
+                sp = subprocess.run(cmd, env=envs, capture_output=True, text=True, timeout=7200)
+                sub_ev = {}
+                try:
+                    with open(os.path.join(tmpo, "evidence", "%s.json" % prop)) as f:
+                        sub_ev = json.load(f)
+                except Exception:
+                    pass
+                sc = sub_ev.get("coverage", {})
+                cov["backend_%s" % be] = {
+                    "what": "same simulator, library imported with sim/fake_secp.py registered as pysecp256k1 "
+                            "(stub of the C library's contract): exercises the primary-path glue that is dead code "
+                            "with the real package here",
+                    "exit": sp.returncode, "runs": sc.get("evaluations", 0),
+                    "distinct_nontrivial": sc.get("distinct_nontrivial", 0),
+                    "fault_kinds_fired": sc.get("fault_kinds_fired"), "violations": sub_ev.get("violations"),
+                    "fault_matrix_cells_hit": sc.get("fault_matrix_cells_hit"),
+                    "harness_errors": sc.get("harness_errors")}
+                for line in sp.stdout.splitlines():
+                    if line.startswith("VIOLATION property=%s " % prop):
+                        m = line.split("replay=", 1)[1].split(" ", 1)
+                        src = m[0]
+                        dst = os.path.join(OUT, "replays", os.path.basename(src))
+                        try:
+                            shutil.copy(src, dst)
+                        except Exception:
+                            dst = src
+                        print("VIOLATION property=%s replay=%s %s [backend=%s]" % (prop, dst, m[1] if len(m) > 1 else "", be))
+                        sub_viol += 1
+                    elif line.startswith("KNOWN-FINDING:"):
+                        print(line + " [backend=%s]" % be)
+                if sp.returncode == 2 or (sp.returncode not in (0, 1)):
+                    harness_errors.append("secondary back end %s run failed (exit %d): %s"
+                                          % (be, sp.returncode, (sp.stdout + sp.stderr)[-1500:]))
+            finally:
+                shutil.rmtree(tmpo, ignore_errors=True)
+    cov["backend"] = BACKEND
     cov["harness_errors"] = harness_errors[:20]
+    wall = time.time() - t0
     ev = {"property_id": prop, "tier": tier, "seed": verif_seed, "level": level,
           "coverage": cov, "assumptions": sim.assumptions(prop), "wall_s": round(wall, 2),
-          "violations": len(reported)}
+          "violations": len(reported) + sub_viol}
     write_evidence(prop, ev)
     eprint("[%s] runs=%d nontrivial-distinct=%d violations=%d known=%d harness_errors=%d wall=%.1fs"
            % (prop, ok_runs, len(nontrivial), len(reported), len(known_hits), len(harness_errors), wall))
     # reach requirements (a cell stuck at zero is a harness error, not a pass)
     for msg in sim.reach_failures(prop, fin, tier):
         harness_errors.append("reach: " + msg)
-    if reported:
+    if reported or sub_viol:
         for e in harness_errors[:10]:
             eprint("HARNESS-ERROR " + e)
         return 1
